@@ -125,16 +125,51 @@ fn merged(inner_op: BinaryOperator, c1: i32, outer_op: BinaryOperator, c2: i32) 
 
 #[kani::proof]
 #[kani::unwind(17)]
-fn merge_arith_same_value() {
-  // PLUS-in-PLUS and MUL-in-MUL (and every pair that is refused)
+fn merge_plus_same_value() {
+  // (x inner c1) + c2: merged only for inner PLUS, and then equal for every x
+  let inner_op = any_op();
+  kani::assume(!matches!(inner_op, BinaryOperator::DIV | BinaryOperator::MOD | BinaryOperator::MUL));
+  let (c1, c2, x): (i32, i32, i32) = (kani::any(), kani::any(), kani::any());
+  if let Some((op, c)) = merged(inner_op, c1, BinaryOperator::PLUS, c2) {
+    assert!(wasm_sem(op, x, c) == sem_chain(x, inner_op, c1, BinaryOperator::PLUS, c2));
+  }
+  kani::cover!(merged(inner_op, c1, BinaryOperator::PLUS, c2).is_some());
+}
+
+#[kani::proof]
+#[kani::unwind(17)]
+fn merge_plus_refuses_div_mod_mul_inner() {
+  let k: u8 = kani::any();
+  kani::assume(k < 3);
+  let (c1, c2): (i32, i32) = (kani::any(), kani::any());
+  assert!(merged(op_of(k), c1, BinaryOperator::PLUS, c2).is_none());
+}
+
+/// (x * c1) * c2: merged only for inner MUL and then into x * (c1 *wrapping c2).  That this
+/// has the same value for every x is associativity in Z/2^32 — Verus lemma
+/// `lemma_wrapping_mul_assoc` in unit `algebra` (a 32-bit multiplier identity is out of SAT reach).
+#[kani::proof]
+#[kani::unwind(17)]
+fn merge_mul_result_form() {
+  let inner_op = any_op();
+  let (c1, c2): (i32, i32) = (kani::any(), kani::any());
+  match merged(inner_op, c1, BinaryOperator::MUL, c2) {
+    Some((op, c)) => {
+      assert!(inner_op == BinaryOperator::MUL && op == BinaryOperator::MUL);
+      assert!(c == c1.wrapping_mul(c2));
+    }
+    None => assert!(inner_op != BinaryOperator::MUL),
+  }
+}
+
+#[kani::proof]
+#[kani::unwind(17)]
+fn merge_refused_for_other_outer_operators() {
   let inner_op = any_op();
   let k: u8 = kani::any();
-  kani::assume(k < 10);
-  let outer_op = op_of(k);
-  let (c1, c2, x): (i32, i32, i32) = (kani::any(), kani::any(), kani::any());
-  if let Some((op, c)) = merged(inner_op, c1, outer_op, c2) {
-    assert!(wasm_sem(op, x, c) == sem_chain(x, inner_op, c1, outer_op, c2));
-  }
+  kani::assume(k == 1 || k == 2 || (k >= 4 && k < 10));
+  let (c1, c2): (i32, i32) = (kani::any(), kani::any());
+  assert!(merged(inner_op, c1, op_of(k), c2).is_none());
 }
 
 #[kani::proof]
